@@ -298,7 +298,7 @@ def check_c21(ctx):
             if fn.endswith(".oprog"):
                 ls = [l for l in open(os.path.join(CORPUS, fn)).read().split("\n") if l and not l.startswith("#")]
                 programs.append(("corpus:" + fn, ls))
-        counts["huge"] = 12 if thorough else 2
+        counts["huge"] = 12 if thorough else 6
         for prof in ("single", "multi", "kill", "huge"):
             for _ in range(counts[prof]):
                 programs.append((prof, gen_store_program(rng, prof)))
